@@ -48,6 +48,7 @@ type ReqRig struct {
 	Ctxs   []CtxLike
 	Txs    []WireTx          // every transmission in observation order
 	ByID   map[uint32][2]int // id -> (ctx,k)
+	ConnT  map[*vt.Pipe]time.Duration // time taken just before each pipe was offered to the socket
 	nonce  string
 	Bad    []string // malformed transmissions
 }
@@ -79,7 +80,14 @@ func NewReqRig(c *mon.Case, proto string, nctx, npipes int) *ReqRig {
 // AddPipe connects one more vt peer and waits until the socket attached it.
 func (r *ReqRig) AddPipe() *vt.Pipe {
 	n := r.Watch.Attached()
+	t := mon.Now()
 	p := r.L.Connect()
+	r.Mu.Lock()
+	if r.ConnT == nil {
+		r.ConnT = map[*vt.Pipe]time.Duration{}
+	}
+	r.ConnT[p] = t
+	r.Mu.Unlock()
 	WaitAttached(r.C, r.Watch, n+1, "vt pipe")
 	r.Mu.Lock()
 	r.Pipes = append(r.Pipes, p)
